@@ -382,6 +382,13 @@ def purity_runs(P):
         r2 = [RS.PathView(S2, r) for r in res2 if r.kind == "return"]
         site = "src/bldfm/solver.py::steady_state_transport_solver::precision (footprint=%s)" % fp
         obs.append(req_ob("R-PREC", site, "both precisions have the same set of paths", len(r1) == len(r2)))
+        narrow = {}
+        for r in res2:
+            for e in r.events:
+                if e[0] == "narrowing-cast":
+                    narrow.setdefault((e[1], e[2]), True)
+        obs.append(req_ob("R-PREC", site, "single precision narrows only the stores into the output spectra: no intermediate quantity (wavenumbers, phases, propagators) is cast down before it is used",
+                          not narrow, detail="; ".join("%s %s" % k for k in sorted(narrow)[:3]) or None, key={"clause": "narrowing"}))
         for a in r1:
             for b in r2:
                 if a.clamp_state() == b.clamp_state() and a.shifted() == b.shifted() and a.r.facts.possible(th) == b.r.facts.possible(th):
